@@ -269,7 +269,7 @@ func (ft *FT) refAxiom(arr Term, depth int) {
 	if sel.S != SInt {
 		return
 	}
-	ft.c.Assume(arr, ft.c.QuantN(false, vars, sorts, mkAnd(app(SBool, ">=", sel, intConst(0)), app(SBool, "<=", sel, intConst(bound)))))
+	ft.c.Assume(arr, ft.c.markRange(ft.c.QuantN(false, vars, sorts, mkAnd(app(SBool, ">=", sel, intConst(0)), app(SBool, "<=", sel, intConst(bound))))))
 }
 
 // intAxiom (int mode): every integer stored in an unwritten memory symbol lies in its type's range.
@@ -298,7 +298,7 @@ func (ft *FT) intAxiom(arr Term, depth int, w int, signed bool) {
 	if sel.S != SInt {
 		return
 	}
-	ft.c.Assume(arr, ft.c.QuantN(false, vars, sorts, inTypeRange(sel, w, signed)))
+	ft.c.Assume(arr, ft.c.markRange(ft.c.QuantN(false, vars, sorts, inTypeRange(sel, w, signed))))
 }
 
 func (ft *FT) noteLen(t Term) {
